@@ -200,7 +200,7 @@ func fsvSpec() *edt.Spec {
 			if neg {
 				op, bop = "Int128.add", ty+".AddShifted"
 			}
-			twoS, s1 := "(2 * "+S+")", "("+S+" + 1)"
+			twoS, s1 := cb("*", "2", S), cb("+", S, "1")
 			if S == "0" {
 				twoS, s1 = "0", "1"
 			}
@@ -286,7 +286,7 @@ type porninRole struct {
 // porninInnerSpec: one symbolic iteration of the interleaved double-and-add loop.
 func porninInnerSpec(c *Ctx, fn string, pointOps []string) *edt.Spec {
 	const (
-		db  = "Scalar.Mul($s_b, $d_1)"
+		db  = "Scalar.Mul($d_1, $s_b)"
 		dbb = "out1(Scalar.ToBytes(" + db + ", zero))"
 		e0  = "Scalar.SetBits(agg([0:16]=(sel(" + dbb + ", [0:16]))))"
 		e1  = "Scalar.SetBits(agg([0:16]=(sel(" + dbb + ", [16:32]))))"
